@@ -149,6 +149,17 @@ def run(tier, seed, replay=None):
                         res.violation("C16/%s/%s" % (kind, field), "history %d step %d (%s): handle %d reads %s=%r, model says %r" % (i, step, ops[step], h, field, rd[field], w),
                                       {"set": si, "ops": ops[:step + 1], "step": step, "handle": h, "observed": rd, "expected": want})
                         bad = True
+            if ops[step]["op"] == "sub_component":
+                # the provider component must not change which context the code around it sees
+                res.ev()
+                res.count("provider-outside-lookups")
+                par = ops[step].get("parent")
+                pl = want_handles[par] if par is not None else None
+                want_out = ('Some("%s")->Some("%s")' % (pl, pl)) if pl is not None else "None->None"
+                if (st.get("info") or {}).get("outside") != want_out:
+                    res.violation("C16/provider-changed-the-context-outside-its-children", "history %d step %d: context seen around the provider %s, expected %s" % (
+                        i, step, (st.get("info") or {}).get("outside"), want_out), {"set": si, "ops": ops[:step + 1], "step": step})
+                    bad = True
             for a, (acc, want) in enumerate(zip(st["accessors"], want_acc)):
                 if want is None:
                     res.count("subscriber-unconstrained-after-untracked-write")
